@@ -182,6 +182,7 @@ func ChunkStream(ctx context.Context, c Chunker, ws WriteStore, n int) (Index, e
 	// order, we calculate the checksum here before handing	them over to the
 	// workers for compression and storage. That could probablybe optimized further
 	var num int // chunk #, so we can re-assemble the index in the right order later
+	var feedErr error
 loop:
 	for {
 		start, b, err := c.Next()
@@ -195,6 +196,9 @@ loop:
 		// Send it off for compression and storage
 		select {
 		case <-ctx.Done():
+			// Either a worker failed (its error is returned below) or the
+			// operation was cancelled before the whole input was chunked
+			feedErr = Interrupted{}
 			break loop
 		case in <- chunkJob{num: num, start: start, b: b}:
 		}
@@ -204,6 +208,9 @@ loop:
 
 	if err := g.Wait(); err != nil {
 		return Index{}, err
+	}
+	if feedErr != nil {
+		return Index{}, feedErr
 	}
 
 	// All the chunks have been processed and are stored in a map. Now build a
